@@ -5,6 +5,16 @@ from common import Rng
 
 import pytrs
 
+
+def safely(rep, what, f, *a):
+    """run one oracle check; an exception escaping the library is itself a failing input for the observables"""
+    try:
+        return f(rep, *a)
+    except Exception as e:  # noqa
+        rep.violation('failing-input', {'check': what, 'args': [str(x)[:300] for x in a], 'why': f'raised {type(e).__name__}: {e}'})
+        return None
+
+
 RULE = ("single-layout descriptions of C01 x {segment}; descriptions with every subset-style removal of colons (all / none) x "
         "{sec_colon_required, sec_colon_cautious}; (leading text, section or range, trailing text, Twp/Rge before / inside / "
         "after) x {sec_within}; non-trivial = more than one tract or a mode that changes the default outcome; distinct by (text, mode)")
@@ -50,6 +60,7 @@ def check_colons_absent(rep, text):
                                         'cautious_flags': c.w_flags})
 
 
+PREAMBLES = ['Parcel ZZTOPAZ', 'Also the following:', 'Tract KKBARIUM of the survey']
 LEADS = ['That part of the NE/4 of', 'A strip of land 100 feet wide across', 'All that portion of', 'The railroad right-of-way through']
 TRAILS = ['lying within the right-of-way', 'lying north of the river', 'described by metes and bounds as follows', 'containing 40 acres']
 
@@ -60,13 +71,21 @@ def check_sec_within(rep, r):
     items = [('single', r.range(1, 36))] if r.chance(1, 2) else [('range', 1, 1 + r.range(1, 3))]
     sec = gen.render_items(items, r, ['Section ', 'Sec ', 'Sections '], repeat_word=False)
     trg = 'T154N-R97W'
-    place = r.below(3)
+    place = r.below(5)
+    pre = ''
     if place == 0:
         text = f'{trg} {lead} {sec} {trail}'
     elif place == 1:
         text = f'{lead} {sec}, {trg}, {trail}'
-    else:
+    elif place == 2:
         text = f'{lead} {sec} {trail}, {trg}'
+    elif place == 3:
+        # text before the Twp/Rge as well: two leftover blocks, one before and one after the captured description
+        pre = r.choice(PREAMBLES)
+        text = f'{pre} {trg}: {lead} {sec} {trail}'
+    else:
+        pre = r.choice(PREAMBLES)
+        text = f'{lead} {sec} {pre} {trg} {trail}'
     d = pytrs.PLSSDesc(text, config='sec_within')
     secs = [f'{n:02d}' for n in gen.expand_items(items)]
     why = None
@@ -79,6 +98,8 @@ def check_sec_within(rep, r):
             if il < 0 or it_ < 0 or il > it_:
                 why = 'description is not the leading and trailing text joined in order'
                 break
+        if not why and pre and any(pre.rstrip(':') not in t.desc for t in d.tracts):
+            why = 'leftover text before/after the Twp/Rge was not re-attached to the description'
         if not why and not any(f.startswith('sec_within<') for f in d.w_flags):
             why = 'no sec_within warning'
     if why:
@@ -94,23 +115,23 @@ def run(ctx):
     for i in range(ctx.budget(250, 20000)):
         r = rng.fork(i)
         text, lay, g = descs.structured(r)
-        check_segment(rep, text)
+        safely(rep, 'segment', check_segment, text)
         rep.count()
         n = len(gen.expected_tracts(g))
         if n > 1:
             rep.nontrivial((text, 'segment'))
         items.append(descs.corr_item(text, cfg='segment'))
         t2, lay2, g2 = descs.structured(r, max_tr=2, max_sg=2, layout=r.choice(['TRS_desc', 'S_desc_TR']), colons=True)
-        check_colons_present(rep, t2)
+        safely(rep, 'colons_present', check_colons_present, t2)
         t3 = t2.replace(':', '')
         # removing the colon after the Twp/Rge spelling 'T..: ' is harmless; sections now have none
-        check_colons_absent(rep, t3)
+        safely(rep, 'colons_absent', check_colons_absent, t3)
         rep.count(2)
         rep.nontrivial((t3, 'colons'))
         items.append(descs.corr_item(t3, cfg='sec_colon_cautious'))
         if i % 2 == 0:
             items.append(descs.corr_item(t3, cfg='sec_colon_required'))
-        t4 = check_sec_within(rep, r)
+        t4 = safely(rep, 'sec_within', check_sec_within, r) or ''
         rep.count()
         rep.nontrivial((t4, 'sec_within'))
         items.append(descs.corr_item(t4, cfg='sec_within'))
